@@ -193,5 +193,76 @@ class SerialiserInjectivity(Lemma):
         return ('confirmed' if f(a) == f(b) else 'contradicted'), {"record_a": a, "record_b": b, "hash_a": f(a), "hash_b": f(b)}
 
 
-TARGETS = [ComputeInfo()]
+class CanMemoize(Target):
+    """the consumer of the hashes: Controller.can_memoize reuses a past component only when the CDB returned it for a query
+    on EXACTLY this component's hash in the matching field (strong hash <-> memoization-hash, fuzzy hash <->
+    memoization-hash-fuzzy); no hash, a disabled kind or no database means no reuse; a candidate is taken only if it is accessible."""
+    prop = 'C16'
+    name = 'Controller.can_memoize'
+    file = 'python/experiment/runtime/control.py'
+    qualname = 'Controller.can_memoize'
+    compare_return = False
+    trusted = ["the CDB answers a query {field: hash} with documents whose field equals hash", "datetime.strptime (native)",
+               "_is_memoized_candidate_accessible"]
+    assumptions = ["<= 2 candidate documents; strong and fuzzy hashes are different symbolic strings or None"]
+
+    def setup(self, c):
+        g = c.ghost
+        g['queries'] = []
+        fuzzy = c.one_of('fuzzy', [False, True])
+        has_cdb = c.one_of('cdb', [True, False])
+        disabled = c.one_of('disabled_kind', [None, 'strong', 'fuzzy'])
+        strong = c.one_of('strong_hash', [None, 'STRONGHASH'])
+        fuzz = c.one_of('fuzzy_hash', [None, 'FUZZYHASH'])
+        ndocs = c.choice('candidates', 3)
+        docs = [{'instance': 'exp-2026-01-0%dT101010.000000.instance' % (k + 1), 'stage': 0, 'name': 'old%d' % k, 'location': '/x'}
+                for k in range(ndocs)]
+        access = [c.one_of('doc%d.accessible' % k, [True, False]) for k in range(ndocs)]
+        fails = c.one_of('cdb_query', ['ok', 'raises']) if has_cdb else 'ok'
+
+        def query(c, query=None, _api_verbose=False):
+            g['queries'].append(dict(query))
+            if fails == 'raises':
+                c.raise_(RuntimeError, 'cdb down')
+            return list(docs)
+        cspec = Obj('cspec', workflowAttributes={'memoization': {'disable': ({disabled: True} if disabled else {})}})
+        comp = Obj('ComponentState', specification=Obj('spec', reference='stage0.c', componentSpecification=cspec),
+                   memoization_hash=strong, memoization_hash_fuzzy=fuzz, memoization_info={})
+        this = Obj('controller', log=NULLLOG, cdb=(Obj('cdb', cdb_get_document_component=Extern('cdb_get_document_component', query))
+                                                   if has_cdb else None),
+                   _is_memoized_candidate_accessible=Extern('_is_memoized_candidate_accessible',
+                                                            lambda c, d: access[docs.index(d)]))
+        return State(args=[this, comp, fuzzy], fuzzy=fuzzy, has_cdb=has_cdb, disabled=disabled, strong=strong, fuzz=fuzz, docs=docs,
+                     access=access, fails=fails)
+
+    def externs(self, c, st):
+        return {'pprint.pformat': Extern('pformat', lambda c, v: 'x')}
+
+    def ensures(self, c, st, out):
+        if out.kind == 'raise':
+            return [('no-exception', False)]
+        g = c.ghost
+        mine = st.fuzz if st.fuzzy else st.strong
+        field = 'memoization-hash-fuzzy' if st.fuzzy else 'memoization-hash'
+        allowed = st.has_cdb and st.disabled != ('fuzzy' if st.fuzzy else 'strong') and mine is not None
+        cl = [('the-database-is-asked-only-about-this-components-own-hash', all(q == {field: mine} for q in g['queries'])),
+              ('no-reuse-without-a-hash-a-database-or-permission', allowed or out.value is None)]
+        if allowed and st.fails == 'ok':
+            ok = [d for d, a in zip(st.docs, st.access) if a]
+            # (which of several equivalent candidates is taken is not part of the statement)
+            cl.append(('an-accessible-candidate-returned-for-this-hash-is-reused', (out.value is None and not ok) or
+                       any(out.value is d for d in ok)))
+        return cl
+
+
+import contracts.C15 as _c15
+
+
+class Serialiser(_c15.HashSerialisation):
+    """the hash is md5 of a canonical serialisation of the record: equal records (whatever their insertion order) give the
+    same text, and every key and value of the record is part of it (C15's contract of _memoization_info_to_hash)"""
+    prop = 'C16'
+
+
+TARGETS = [ComputeInfo(), CanMemoize(), Serialiser()]
 LEMMAS = [SerialiserInjectivity()]
